@@ -80,11 +80,13 @@ def _gen_op(rng, name):
         return {"op": name, "name": rng.choice(["s", "sub", "s2", "omega"]),
                 "frac": rng.choice([0.0, 0.1, 0.3, 0.5, 0.9]), "seed": sd,
                 "how": rng.choice(["idx", "idx", "pred"]),
+                "idx_dtype": rng.choice(["int32", "int64"]),
                 "axis": rng.randrange(3), "c": rng.choice([0.3, 0.5, 0.7])}
     if name == "tag_b":
         return {"op": name, "name": rng.choice(["b", "bnd", "b2", "gamma"]),
                 "frac": rng.choice([0.0, 0.1, 0.3, 0.5, 1.0]), "seed": sd,
                 "where": rng.choice(["boundary", "interior", "any", "any"]),
+                "idx_dtype": rng.choice(["int32", "int64"]),
                 "oriented": rng.random() < 0.25}
     if name == "transform":
         return {"op": name, "kind": rng.choice(["scaled", "translated",
@@ -153,6 +155,14 @@ def generate(prop, rng, tier):
     nops = rng.choice([2, 3, 4, 5, 6, 8])
     # swarm: a random subset of the op pool is enabled for this run
     pool = list(spec["pool"])
+    if rng.random() < 0.1:
+        # thin plates and needles; Mesh.__add__ rounds coordinates to 8
+        # decimals absolutely, which is no longer small against a cell that
+        # is 0.003 thick, so joins stay out of these histories
+        rec["stretch"] = rng.choice([[1.0, 0.1, 0.02], [0.05, 1.0, 1.0],
+                                     [1.0, 1.0, 0.03], [1.0, 0.02, 1.0],
+                                     [0.2, 1.0, 0.05]])
+        pool = [n for n in pool if n not in ("join", "join_mixed")]
     if prop in ("C12", "C13") and rng.random() < 0.12:
         # the same geometry in other units; operations whose library code
         # (or whose check here) works with absolute coordinates stay out
@@ -163,7 +173,8 @@ def generate(prop, rng, tier):
     enabled = sorted(set(pool))
     drop = [n for n in enabled if rng.random() < 0.25]
     pool = [n for n in pool if n not in drop] or \
-        (list(spec["pool"]) if not rec.get("scale") else list(spec["must"]))
+        (list(spec["pool"]) if not (rec.get("scale") or rec.get("stretch"))
+         else [n for n in spec["must"] if n not in ("join", "join_mixed")])
     # choose operations that apply to the cell kind the history has at that
     # point (tracked statically: split and extrude change it)
     kind, o2 = cell, rec.get("order", 1) == 2
@@ -201,7 +212,8 @@ def generate(prop, rng, tier):
             kpos = "tri" if kpos == "quad" else "tet"
         elif o["op"] == "extrude" and kpos in ("line", "tri") and not o2pos:
             kpos = "quad" if kpos == "line" else "wedge"
-    musts = [n for n in spec["must"] if _applicable(n, kpos, o2pos)] \
+    musts = [n for n in spec["must"] if _applicable(n, kpos, o2pos)
+             and not (rec.get("stretch") and n in ("join", "join_mixed"))] \
         or list(spec["must"])
     ops.insert(pos, _gen_op(rng, rng.choice(musts)))
     # tags early so that they travel
@@ -519,7 +531,8 @@ def _step(st, o, prop, probes, faults, catcher, skm):
     # ------------------------------------------------------------ tagging
     if name == "tag_s":
         if o["how"] == "idx":
-            idx = _subset(s.nt, o["frac"], o["seed"])
+            idx = _subset(s.nt, o["frac"], o["seed"]).astype(
+                o.get("idx_dtype", "int32"))
             r = m.with_subdomains({o["name"]: idx})
         else:
             ax = o["axis"] % s.dim
@@ -549,7 +562,8 @@ def _step(st, o, prop, probes, faults, catcher, skm):
         missing = [k for k in sel if k not in lookup]
         if missing:
             raise Bad("valid-facet-table-lacks-facet", facet=list(missing[0]))
-        idx = np.array(sorted(lookup[k] for k in sel), dtype=np.int32)
+        idx = np.array(sorted(lookup[k] for k in sel),
+                       dtype=o.get("idx_dtype", "int32"))
         if o["oriented"]:
             from skfem.generic_utils import OrientedBoundary
             orr = np.array([random.Random(o["seed"] + 1 + i).randrange(
